@@ -121,3 +121,46 @@ Theorem clear_then_continue_op g n c E xs0 ys :
   RunInvD g n c (count n xs0) (xs0 ++ ys)
     (op_run (n_step_info g) n c (map OStep xs0 ++ OClear :: map OStep ys)).
 Proof. intros. rewrite op_run_one_clear. apply (clear_then_continue_lemma g n c E); assumption. Qed.
+
+(* ---------- a clear that also empties the deque: afterwards the pair behaves as a new one ---------- *)
+Lemma pair_step_caps info n s t :
+  cap (nbuf (pair_step info n s t)) = cap (nbuf s) /\ cap (mem (pair_step info n s t)) = cap (mem s).
+Proof.
+  unfold pair_step, ns_add. destruct (length (dq_append n (win s) t) <? n); cbn; auto.
+Qed.
+
+Lemma op_step_caps info n s o :
+  cap (nbuf (op_step info n s o)) = cap (nbuf s) /\ cap (mem (op_step info n s o)) = cap (mem s).
+Proof.
+  destruct o as [t|[|]| |]; cbn [op_step ev_step]; try apply pair_step_caps; cbn; auto.
+Qed.
+
+Lemma op_run_caps info n c ops :
+  cap (nbuf (op_run info n c ops)) = c /\ cap (mem (op_run info n c ops)) = c.
+Proof.
+  unfold op_run. induction ops as [|o ops IH] using rev_ind; [cbn; auto|].
+  rewrite fold_left_app. cbn [fold_left]. destruct (op_step_caps info n (fold_left (op_step info n) ops (pinit c)) o) as [H1 H2].
+  rewrite H1, H2. exact IH.
+Qed.
+
+Theorem clear_all_fresh info n c ops ys :
+  let s := op_run info n c (ops ++ OClearAll :: map OStep ys) in
+  let f := pair_run info n c ys in
+  win s = win f /\ nbuf s = nbuf f /\ mem s = mem f.
+Proof.
+  cbv zeta.
+  assert (E : op_run info n c (ops ++ OClearAll :: map OStep ys) =
+              fold_left (pair_step info n) ys
+                {| win := []; nbuf := rb_init c; mem := rb_init c; ret := ret (op_run info n c ops) |}).
+  { unfold op_run. rewrite fold_left_app. cbn [fold_left op_step]. rewrite op_run_steps.
+    fold (op_run info n c ops). destruct (op_run_caps info n c ops) as [C1 C2].
+    unfold rb_clear. rewrite C1, C2. reflexivity. }
+  rewrite E. unfold pair_run.
+  assert (G : forall xs a b, win a = win b -> nbuf a = nbuf b -> mem a = mem b ->
+            let a' := fold_left (pair_step info n) xs a in let b' := fold_left (pair_step info n) xs b in
+            win a' = win b' /\ nbuf a' = nbuf b' /\ mem a' = mem b').
+  { induction xs as [|t xs IH]; intros a b Hw Hn Hm; cbn [fold_left]; auto.
+    apply IH; unfold pair_step, ns_add; rewrite Hw, Hn, Hm;
+      destruct (length (dq_append n (win b) t) <? n); reflexivity. }
+  apply G; reflexivity.
+Qed.
